@@ -312,8 +312,6 @@ def carried_arguments(wn, carry, call, c):
                 if got != want:
                     diffs.append({'call': name, 'simulate_root': sim, 'a': a.id, 'b': b.id,
                                   'carried': got, 'fresh': want})
-        if (a == fa) is not True or hash(a) != hash(fa):
-            diffs.append({'call': 'hash/eq', 'a': a.id})
     return diffs[:5]
 
 
